@@ -1053,8 +1053,15 @@ def _add_data_producers():
         try:
             if variant == 0 and src.kind == 'tdataset':
                 name = f'calc_rdm_movie[{method}]'
+                kw = {}
+                tvals = list(np.asarray(obj.time_descriptors['time']).tolist())
+                if o['a'][3] % 2 == 0 and len(tvals) >= 2:
+                    kw['bins'] = [np.array(tvals[i:i + 2]) for i in range(0, len(tvals) - len(tvals) % 2, 2)]      # the movie over bins of two frames
+                    name = f'calc_rdm_movie[{method},bins]'
+                if o['a'][3] % 3 == 0:
+                    kw['unbalanced'] = True
                 calc_rdm_movie(obj, method=method, descriptor=None if (o['a'][5] % 4 == 0 and method not in ('crossnobis', 'poisson_cv')) else 'cond',
-                               cv_descriptor=cvd)
+                               cv_descriptor=cvd, **kw)
             elif src.kind == 'tdataset':
                 return False
             elif variant == 1:
